@@ -87,6 +87,49 @@ func e2eCase(seed uint64, i int) {
 	cpgen.RunE2E(run, id, seed*7919+uint64(i), lg, o)
 }
 
+// markReserved sets reserved attribute bits (0x40 = hasDeleteHorizonMs of Kafka >= 3.1 on cleaned batches, and other
+// bits outside 0x3f) on most control batches and some data batches of a log: clients must ignore them.
+func markReserved(r *hlib.Rand, lg *cpgen.Log) {
+	for _, u := range lg.Units {
+		if u.Bat == nil {
+			continue
+		}
+		if (u.Bat.Control && r.Chance(2, 3)) || (!u.Bat.Control && r.Chance(1, 4)) {
+			u.Bat.AttrHigh = uint16(r.Pick(0x40, 0x40, 0x40, 0x80, 0x100, 0x4000, 0x8000, 0xc0, 0xffc0))
+			run.Count("batch-with-reserved-attribute-bits")
+		}
+	}
+}
+
+// reservedFamily: fetch histories over transactional logs whose batches carry reserved attribute bits.  All random
+// choices come from a PRNG of its own, so the other scenario streams of a seed are unaffected.
+func reservedFamily(seed uint64, n int) {
+	r := hlib.NewRand(seed*0x5bd1e995 + 0xA77B175)
+	for i := 0; i < n; i++ {
+		lg := cpgen.GenLog(r, cpgen.LogOpts{Format: 2, Txn: true, MaxUnits: r.Pick(4, 7, 12)})
+		markReserved(r, lg)
+		so := lg.StartOffsets()
+		for k := 0; k < 3; k++ {
+			history(r, lg, !r.Chance(1, 3), so[r.Intn(len(so))], r.Pick(1, 2, 3, 100), r.Bool())
+			run.Count("history-reserved-attribute-bits")
+		}
+	}
+}
+
+// e2eAttrCase: end-to-end scenario i of the reserved-bits family (replayable as the line "e2ea <seed> <i>")
+func e2eAttrCase(seed uint64, i int) {
+	r := hlib.NewRand(seed*1000003 + uint64(i) + 0xA77)
+	lg := cpgen.GenLog(r, cpgen.LogOpts{Format: 2, Txn: true, MaxUnits: r.Pick(5, 10), LeaveOpen: r.Chance(1, 3)})
+	markReserved(r, lg)
+	so := lg.StartOffsets()
+	o := cpgen.E2EOpts{Rc: !r.Chance(1, 3), Kv: cpgen.PickVersion(r, 2), Start: so[r.Intn(len(so)/2+1)],
+		FetchDef: int32(r.Pick(256, 1024, 1<<20)), Faults: r.Chance(1, 3), ChanBuf: r.Pick(0, 4, 256), MaxUnits: r.Pick(1, 3, 8)}
+	id := fmt.Sprintf("e2ea %d %d", seed, i)
+	run.Case(id)
+	run.Count("e2e-reserved-attribute-bits")
+	cpgen.RunE2E(run, id, seed*104729+uint64(i), lg, o)
+}
+
 func main() {
 	run = hlib.Start("C11")
 	rn = &cpgen.Runner{Run: run}
@@ -99,6 +142,9 @@ func main() {
 				}
 			case strings.HasPrefix(l, "resp "):
 				rn.ReplayStep(l)
+			case strings.HasPrefix(l, "e2ea "):
+				t := strings.Fields(l)
+				e2eAttrCase(uint64(hlib.Atoi(t[1])), hlib.Atoi(t[2]))
 			case strings.HasPrefix(l, "e2e "):
 				t := strings.Fields(l)
 				e2eCase(uint64(hlib.Atoi(t[1])), hlib.Atoi(t[2]))
@@ -143,6 +189,15 @@ func main() {
 	}
 	for i := 0; i < ne && cpgen.E2EFailures < 3; i++ {
 		e2eCase(run.Seed, i)
+	}
+	// reserved attribute bits (own PRNG; after everything else so that the other streams keep their positions)
+	nr, na := 40, 6
+	if run.Tier == "thorough" {
+		nr, na = 1200, 60
+	}
+	reservedFamily(run.Seed, nr)
+	for i := 0; i < na && cpgen.E2EFailures < 3; i++ {
+		e2eAttrCase(run.Seed, i)
 	}
 	run.Finish("case = one fetch history (reset + responses) over a generated transactional log; non-trivial = distinct history that delivered at least one message")
 }
